@@ -41,6 +41,8 @@ fn table() -> Vec<Entry> {
         entry!("C07", c07, "exploration"),
         entry!("C08", c08, "exploration"),
         entry!("C09", c09, "exploration"),
+        entry!("C10", c10, "exploration"),
+        entry!("C11", c11, "exploration"),
         entry!("C13", c13, "exploration"),
     ]
 }
